@@ -162,8 +162,33 @@ def spec_C04(p, stream):
     return out
 
 
+def same_content_variant(p, stream, tk):
+    """All frames have the same content; validity is scripted per position (a validator with memory): same positions."""
+    ST, SDS, DS = load()
+
+    class Same(DS):
+        def __init__(self, n):
+            self.n, self.i = n, 0
+
+        def read(self):
+            if self.i >= self.n:
+                return None
+            self.i += 1
+            return "x"
+    verdicts = iter([c.isupper() for c in stream])
+    try:
+        t = ST(lambda fr: next(verdicts), p["m"], p["M"], p["s"], p.get("i0", 0), p.get("ims", 0), p.get("mode", 0))
+        got = [(a, b) for d, a, b in t.tokenize(Same(len(stream)))]
+    except Exception as e:  # noqa
+        return "tokenize on identical frames with a scripted validator raised %s" % type(e).__name__
+    if got != [(a, b) for d, a, b in tk]:
+        return "identical frames, validity scripted per position: tokens at %r, expected %r (the validator is consulted once per frame, " \
+               "for that frame)" % (got[:4], [(a, b) for d, a, b in tk][:4])
+    return None
+
+
 def check_C04(p, stream, tk):
-    r0 = falsy_variant(p, stream, tk)
+    r0 = falsy_variant(p, stream, tk) or same_content_variant(p, stream, tk)
     if r0:
         return r0
     if p.get("i0", 0) > 1:
